@@ -121,6 +121,8 @@ func sgStmts(list []ast.Stmt, recv string, param string, cond func(ast.Expr) (st
 				out = append(out, ".run")
 			case c != nil && n == recv+".flush" && len(c.Args) == 1:
 				out = append(out, ".aggFlush")
+			case c != nil && n == recv+".rethrow" && len(c.Args) == 0:
+				out = append(out, ".rethrow")
 			case c != nil && n == recv+".keepAliveTicker.Stop":
 				out = append(out, ".stopTicker")
 			default:
